@@ -1,6 +1,7 @@
-(* ChainParse.v — C16 at every depth, from the path text: a path made of any number of name steps, each in any of
-   the three spellings ( ["k"]  ['k']  .k ), is accepted by the grammar and builds the chain of single-name steps. *)
-From JP Require Import Peg Grammar Slice Text Tree Actions PegFacts PegMono PegEv Codec FuelRules ParseFacts KeyDefs KeyParse IdxParse WildParse.
+(* ChainParse.v — from the path text: a path made of any number of steps — names in any of the three spellings
+   ( ["k"]  ['k']  .k ), indexes [digits], wildcards .* [*], each possibly after `..` — is accepted by the grammar and
+   builds the chain of nodes the steps stand for. *)
+From JP Require Import Peg Grammar Slice Text Tree Actions PegFacts PegMono PegEv Codec FuelRules ParseFacts KeyDefs KeyParse IdxParse WildParse RecParse.
 From Coq Require Import Lia.
 Local Open Scope N_scope.
 Open Scope list_scope.
@@ -20,11 +21,6 @@ Definition step_tokens (p : nat) (s : kstep) : list token :=
   | SWild true => [TAct 12; TText p (p + 2); TAct 4]
   | SWild false => [TAct 12; TText p (p + 3); TAct 7]
   end.
-Fixpoint steps_tokens (p : nat) (steps : list kstep) : list token :=
-  match steps with
-  | [] => []
-  | s :: r => step_tokens p s ++ steps_tokens (p + List.length (render_step s)) r
-  end.
 
 Lemma render_len_br q k : List.length (render_step (SBr q k)) = (List.length (esc_cps q k) + 4)%nat.
 Proof. cbn [render_step List.length]. rewrite app_length. cbn [List.length]. lia. Qed.
@@ -34,8 +30,6 @@ Proof. reflexivity. Qed.
 Lemma render_len_idx ds : List.length (render_step (SIdx ds)) = (List.length ds + 2)%nat.
 Proof. cbn [render_step List.length]. rewrite app_length. cbn [List.length]. lia. Qed.
 
-Lemma steps_stop steps : dot_stop (render_steps steps).
-Proof. destruct steps as [|[q k|k|ds|[|]] r]; cbn; auto. Qed.
 
 Lemma q_ok q : (q =? 34) || (q =? 39) = true -> q = 34 \/ q = 39.
 Proof. intros H. apply orb_true_iff in H. destruct H as [H|H]; apply N.eqb_eq in H; auto. Qed.
@@ -58,23 +52,84 @@ Qed.
 Lemma render_step_len_pos s : (1 <= List.length (render_step s))%nat.
 Proof. destruct s as [q k|k|ds|[|]]; cbn [render_step List.length]; lia. Qed.
 
+(* ---------- steps after `..` ---------- *)
+Definition rstep_ok (x : rstep) : bool := match x with RPlain s | RRec s => step_ok s end.
+Definition rstep_tokens (p : nat) (x : rstep) : list token :=
+  match x with
+  | RPlain s => step_tokens p s
+  | RRec s => match s with
+              | SDot k => let n := List.length (esc_dot_cps k) in [TText (p + 2) (p + 2 + n); TAct 10; TAct 3]
+              | SWild true => [TAct 12; TAct 3]
+              | _ => step_tokens (p + 2) s ++ [TAct 3]
+              end
+  end.
+Fixpoint steps_tokens (p : nat) (steps : list rstep) : list token :=
+  match steps with
+  | [] => []
+  | x :: r => rstep_tokens p x ++ steps_tokens (p + List.length (render_rstep x)) r
+  end.
+
+Lemma steps_stop steps : dot_stop (render_steps steps).
+Proof. destruct steps as [|[[q k|k|ds|[|]]|s] r]; cbn; auto. Qed.
+
+Lemma rec_body_bracket s : (match s with SDot _ | SWild true => False | _ => True end) -> rec_body s = render_step s.
+Proof. destruct s as [q k|k|ds|[|]]; intros H; try contradiction; reflexivity. Qed.
+
+(* the bracket forms go through bracketNode whatever follows *)
+Lemma ev_rule10_step s rest pos : step_ok s = true -> (match s with SDot _ | SWild true => False | _ => True end) ->
+  evG (PRef 10) (render_step s ++ rest) pos (POk rest (pos + List.length (render_step s)) (step_tokens pos s)).
+Proof.
+  intros Hs Hb. destruct s as [q k|k|ds|[|]]; try contradiction.
+  - cbn [step_ok] in Hs. apply q_ok in Hs. rewrite render_len_br. cbn [render_step step_tokens app].
+    rewrite <- app_assoc. cbn [app]. eapply ev_conv; [apply ev_rule10; exact Hs|]. f_equal. lia.
+  - destruct ds as [|d ds]; [discriminate Hs|]. cbn [step_ok] in Hs. apply andb_true_iff in Hs. destruct Hs as [Hd _].
+    rewrite render_len_idx. cbn [render_step step_tokens]. cbn [app]. rewrite <- app_assoc. cbn [app].
+    eapply ev_conv; [apply (ev_rule10_idx d ds rest pos); exact Hd|]. f_equal. lia.
+  - cbn [render_step step_tokens app List.length]. apply ev_rule10_wild.
+Qed.
+
+Lemma ev_rule7_rstep x rest pos : rstep_ok x = true -> dot_stop rest ->
+  evG (PRef 7) (render_rstep x ++ rest) pos (POk rest (pos + List.length (render_rstep x)) (rstep_tokens pos x)).
+Proof.
+  intros Hs Hr. destruct x as [s|s]; [apply ev_rule7_step; assumption|]. cbn [rstep_ok] in Hs.
+  destruct s as [q k|k|ds|[|]].
+  - cbn [render_rstep rstep_tokens rec_body]. cbn [app List.length].
+    pose proof (ev_rule10_step (SBr q k) rest (pos + 2)%nat Hs I) as H10.
+    pose proof (ev_rule7_rec_br (render_step (SBr q k)) rest pos _ (List.length (render_step (SBr q k))) H10) as H7.
+    eapply ev_conv; [exact H7|]. f_equal. lia.
+  - destruct k as [|c k]; [discriminate Hs|]. cbn [step_ok] in Hs. cbn [render_rstep rstep_tokens rec_body]. cbn [app List.length].
+    eapply ev_conv; [apply ev_rule7_rec_dot; [exact Hs|exact Hr]|]. f_equal. lia.
+  - cbn [render_rstep rstep_tokens rec_body]. cbn [app List.length].
+    pose proof (ev_rule10_step (SIdx ds) rest (pos + 2)%nat Hs I) as H10.
+    pose proof (ev_rule7_rec_br (render_step (SIdx ds)) rest pos _ (List.length (render_step (SIdx ds))) H10) as H7.
+    eapply ev_conv; [exact H7|]. f_equal. lia.
+  - cbn [render_rstep rstep_tokens rec_body app List.length]. apply ev_rule7_rec_wild.
+  - cbn [render_rstep rstep_tokens rec_body]. cbn [app List.length].
+    pose proof (ev_rule10_step (SWild false) rest (pos + 2)%nat Hs I) as H10.
+    pose proof (ev_rule7_rec_br (render_step (SWild false)) rest pos _ (List.length (render_step (SWild false))) H10) as H7.
+    eapply ev_conv; [exact H7|]. f_equal.
+    cbn [List.length]. lia.
+Qed.
+Lemma render_rstep_len_pos x : (1 <= List.length (render_rstep x))%nat.
+Proof. destruct x as [s|s]; [apply render_step_len_pos|cbn [render_rstep List.length]; lia]. Qed.
+
 (* the childNode repetition consumes all the steps *)
-Lemma ev_steps_star steps pos : forallb step_ok steps = true ->
+Lemma ev_steps_star steps pos : forallb rstep_ok steps = true ->
   evG (PStar (PRef 7)) (render_steps steps) pos (POk [] (pos + List.length (render_steps steps)) (steps_tokens pos steps)).
 Proof.
   revert pos. induction steps as [|s r IH]; intros pos Hs.
   - cbn [render_steps flat_map List.length steps_tokens]. eapply ev_conv; [apply ev_star_stop; apply ev_rule7_eof|f_equal; lia].
   - cbn [forallb] in Hs. apply andb_true_iff in Hs. destruct Hs as [H1 H2].
     unfold render_steps in *. cbn [flat_map steps_tokens]. rewrite app_length.
-    pose proof (ev_rule7_step s (flat_map render_step r) pos H1 (steps_stop r)) as E1.
-    pose proof (render_step_len_pos s) as Hl.
-    pose proof (ev_star_step G _ _ _ _ _ _ _ _ _ E1 ltac:(lia) (IH (pos + List.length (render_step s))%nat H2)) as E2.
+    pose proof (ev_rule7_rstep s (flat_map render_rstep r) pos H1 (steps_stop r)) as E1.
+    pose proof (render_rstep_len_pos s) as Hl.
+    pose proof (ev_star_step G _ _ _ _ _ _ _ _ _ E1 ltac:(lia) (IH (pos + List.length (render_rstep s))%nat H2)) as E2.
     eapply ev_conv; [exact E2|]. f_equal. lia.
 Qed.
 
-Definition chain_tokens (steps : list kstep) : list token := TAct 8 :: steps_tokens 1 steps ++ [TAct 2; TAct 0].
+Definition chain_tokens (steps : list rstep) : list token := TAct 8 :: steps_tokens 1 steps ++ [TAct 2; TAct 0].
 
-Lemma ev_chain_path steps : forallb step_ok steps = true ->
+Lemma ev_chain_path steps : forallb rstep_ok steps = true ->
   evG (PRef 0) (chain_path steps) 0 (POk [] (S (List.length (render_steps steps))) (chain_tokens steps)).
 Proof.
   intros Hs. unfold chain_path, chain_tokens. eapply ev_conv.
@@ -94,7 +149,7 @@ Proof.
   - cbn [List.length app Nat.add]. rewrite <- app_assoc. cbn [app]. reflexivity.
 Qed.
 
-Lemma peg_chain_path steps : forallb step_ok steps = true ->
+Lemma peg_chain_path steps : forallb rstep_ok steps = true ->
   peg_parse G (chain_path steps) = POk [] (S (List.length (render_steps steps))) (chain_tokens steps).
 Proof. intros Hs. apply ev_peg_parse; [apply ev_chain_path; exact Hs|apply peg_never_out_of_fuel]. Qed.
 
@@ -214,75 +269,164 @@ Section ChainExec.
       rewrite set_last_text_mk by discriminate. cbn [abind]. reflexivity.
   Qed.
 
-  Lemma exec_steps input steps : forall p ps toks cps b, forallb step_ok steps = true -> skipn p input = render_steps steps ->
+
+  (* ---------- nodes a step stands for ---------- *)
+  Definition rec_flags (s : kstep) : bool * bool :=
+    match s with SWild _ => (true, true) | SIdx _ => (false, true) | _ => (true, false) end.
+  Definition rec_inner_basic (s : kstep) : basic :=
+    match s with
+    | SDot k => mk_basic (step_key s) false (cfg_accessor cfg)
+    | SWild true => mk_basic "*" true (cfg_accessor cfg)
+    | _ => pre_basic s
+    end.
+  Definition rec_basic : basic := mk_basic ".." true (cfg_accessor cfg).
+  Definition rstep_pre (x : rstep) : list (kind * basic) :=
+    match x with
+    | RPlain s => [(step_kind s, pre_basic s)]
+    | RRec s => [(KRec (fst (rec_flags s)) (snd (rec_flags s)), rec_basic); (step_kind s, rec_inner_basic s)]
+    end.
+  Fixpoint link (l : list (kind * basic)) : onode :=
+    match l with [] => ONone | x :: r => OSome (Node (fst x) (snd x) (link r)) end.
+  Definition rpre_node (x : rstep) : node :=
+    match rstep_pre x with x0 :: r => Node (fst x0) (snd x0) (link r) | [] => nil_node end.
+  Definition plain_kind (k : kind) : Prop := (forall ids aw uq, k <> KMulti ids aw uq) /\ (forall f p, k <> KAgg f p).
+  Lemma rstep_pre_plain x : Forall (fun kb => plain_kind (fst kb)) (rstep_pre x).
+  Proof. destruct x as [s|s]; cbn [rstep_pre]; repeat constructor; cbn [fst]; try apply step_kind_plain; intros; discriminate. Qed.
+
+  Lemma push_recursive_step s ps : push_recursive cfg (Node (step_kind s) (rec_inner_basic s) ONone) (mk ps) = mk (ps ++ [INode (rpre_node (RRec s))]).
+  Proof. destruct s as [q k|k|ds|[|]]; reflexivity. Qed.
+
+  Lemma exec_act3 cps b ps nd toks input :
+    execute (TAct 3 :: toks) input cps b (mk (ps ++ [INode nd])) = execute toks input cps b (push_recursive cfg nd (mk ps)).
+  Proof.
+    cbn [Actions.execute].
+    change (exec_action 3 cps b ?st) with (abind (pop_node st) (fun '(n, st1) => AOk (push_recursive cfg n st1))).
+    unfold pop_node. rewrite pop_mk. cbn [abind]. reflexivity.
+  Qed.
+
+  Lemma exec_rstep input p x ps toks cps b rest : rstep_ok x = true -> skipn p input = render_rstep x ++ rest ->
+    exists cps' b', execute (rstep_tokens p x ++ toks) input cps b (mk ps) = execute toks input cps' b' (mk (ps ++ [INode (rpre_node x)])).
+  Proof.
+    intros Hs Hin. destruct x as [s|s].
+    - eexists _, _. cbn [rstep_tokens render_rstep] in *. rewrite (exec_step input p s ps toks cps b rest Hs Hin). reflexivity.
+    - cbn [rstep_ok] in Hs. cbn [render_rstep] in Hin.
+      assert (Hin2 : skipn (p + 2) input = rec_body s ++ rest) by (rewrite skipn_add, Hin; reflexivity).
+      destruct s as [q k|k|ds|[|]].
+      + cbn [rstep_tokens]. rewrite <- app_assoc. cbn [rec_body] in Hin2.
+        rewrite (exec_step input (p + 2) (SBr q k) ps _ cps b rest Hs Hin2). cbn [app]. rewrite exec_act3.
+        eexists _, _. unfold pre_node. change (pre_basic (SBr q k)) with (rec_inner_basic (SBr q k)). rewrite push_recursive_step. reflexivity.
+      + destruct k as [|c k]; [discriminate Hs|]. cbn [step_ok] in Hs. cbn [rstep_tokens app Actions.execute]. cbn [rec_body] in Hin2.
+        assert (E1 : sub_list input (p + 2) (p + 2 + List.length (esc_dot_cps (c :: k))) = esc_dot_cps (c :: k)).
+        { pose proof (sub_at input (p + 2) 0 [] (esc_dot_cps (c :: k)) rest Hin2 eq_refl) as H. rewrite Nat.add_0_r in H. exact H. }
+        rewrite E1.
+        assert (E10 : forall bg st, exec_action 10 (esc_dot_cps (c :: k)) bg st = AOk (push_single cfg (string_of_bytes (utf8 (c :: k))) st)).
+        { intros bg st. cbn [Actions.exec_action]. rewrite esc_dot_cps_eq, unescape_dot_esc; [reflexivity|exact dot_sym_92|apply dot_char_not_nl; exact Hs]. }
+        rewrite E10. cbn [abind]. unfold push_single, push, with_params, mk. cbn [params saved proot].
+        fold (mk (ps ++ [INode (Node (KSingle (string_of_bytes (utf8 (c :: k)))) (mk_basic (string_of_bytes (utf8 (c :: k))) false (acc cfg)) ONone)])).
+        pose proof (exec_act3 (esc_dot_cps (c :: k)) (p + 2) ps (Node (KSingle (string_of_bytes (utf8 (c :: k)))) (mk_basic (string_of_bytes (utf8 (c :: k))) false (acc cfg)) ONone) toks input) as E3.
+        cbn [Actions.execute] in E3. rewrite E3. eexists _, _.
+        change (Node (KSingle (string_of_bytes (utf8 (c :: k)))) (mk_basic (string_of_bytes (utf8 (c :: k))) false (acc cfg)) ONone)
+          with (Node (step_kind (SDot (c :: k))) (rec_inner_basic (SDot (c :: k))) ONone).
+        rewrite push_recursive_step. reflexivity.
+      + cbn [rstep_tokens]. rewrite <- app_assoc. cbn [rec_body] in Hin2.
+        rewrite (exec_step input (p + 2) (SIdx ds) ps _ cps b rest Hs Hin2). cbn [app]. rewrite exec_act3.
+        eexists _, _. unfold pre_node. change (pre_basic (SIdx ds)) with (rec_inner_basic (SIdx ds)). rewrite push_recursive_step. reflexivity.
+      + cbn [rstep_tokens app Actions.execute].
+        change (exec_action 12 cps b (mk ps)) with (AOk (push (INode (Node KWild (mk_basic "*" true (acc cfg)) ONone)) (mk ps))). cbn [abind].
+        unfold push, with_params, mk. cbn [params saved proot].
+        fold (mk (ps ++ [INode (Node KWild (mk_basic "*" true (acc cfg)) ONone)])).
+        pose proof (exec_act3 cps b ps (Node KWild (mk_basic "*" true (acc cfg)) ONone) toks input) as E3.
+        cbn [Actions.execute] in E3. rewrite E3. eexists _, _.
+        change (Node KWild (mk_basic "*" true (acc cfg)) ONone) with (Node (step_kind (SWild true)) (rec_inner_basic (SWild true)) ONone).
+        rewrite push_recursive_step. reflexivity.
+      + cbn [rstep_tokens]. rewrite <- app_assoc. cbn [rec_body] in Hin2.
+        rewrite (exec_step input (p + 2) (SWild false) ps _ cps b rest Hs Hin2). cbn [app]. rewrite exec_act3.
+        eexists _, _. unfold pre_node. change (pre_basic (SWild false)) with (rec_inner_basic (SWild false)). rewrite push_recursive_step. reflexivity.
+  Qed.
+
+  Lemma exec_steps input steps : forall p ps toks cps b, forallb rstep_ok steps = true -> skipn p input = render_steps steps ->
     exists cps' b', execute (steps_tokens p steps ++ toks) input cps b (mk ps) =
-                    execute toks input cps' b' (mk (ps ++ map (fun s => INode (pre_node s)) steps)).
+                    execute toks input cps' b' (mk (ps ++ map (fun s => INode (rpre_node s)) steps)).
   Proof.
     induction steps as [|s r IH]; intros p ps toks cps b Hs Hin.
     - exists cps, b. cbn [steps_tokens app map]. rewrite app_nil_r. reflexivity.
     - cbn [forallb] in Hs. apply andb_true_iff in Hs. destruct Hs as [H1 H2].
       unfold render_steps in Hin. cbn [flat_map] in Hin. cbn [steps_tokens]. rewrite <- app_assoc.
-      rewrite (exec_step input p s ps _ cps b _ H1 Hin).
-      destruct (IH (p + List.length (render_step s))%nat (ps ++ [INode (pre_node s)]) toks (render_step s) p H2 (skipn_next input p _ _ Hin)) as (cps' & b' & E).
+      destruct (exec_rstep input p s ps (steps_tokens (p + List.length (render_rstep s)) r ++ toks) cps b _ H1 Hin) as (c1 & b1 & E1).
+      rewrite E1.
+      destruct (IH (p + List.length (render_rstep s))%nat (ps ++ [INode (rpre_node s)]) toks c1 b1 H2 (skipn_next input p _ _ Hin)) as (cps' & b' & E).
       exists cps', b'. rewrite E. cbn [map]. rewrite <- app_assoc. reflexivity.
   Qed.
 
-  (* the chain before and after setConnectedText *)
-  Fixpoint chain0 (l : list kstep) : onode :=
-    match l with [] => ONone | s :: r => OSome (Node (step_kind s) (pre_basic s) (chain0 r)) end.
-  Fixpoint ctext_of (l : list kstep) : string :=
-    match l with [] => ""%string | s :: r => (step_text s ++ ctext_of r)%string end.
-  Definition fin_basic (vg : bool) (s : kstep) (r : list kstep) : basic :=
-    {| text := step_text s; ctext := (step_text s ++ ctext_of r)%string; vgroup := vg; accessor := cfg_accessor cfg |}.
-  Fixpoint chain1 (l : list kstep) : onode :=
-    match l with [] => ONone | s :: r => OSome (Node (step_kind s) (fin_basic (step_vg s) s r) (chain1 r)) end.
-  (* the first node carries the value-group flag of the whole path (updateRootValueGroup, deleteRootIdentifier) *)
-  Definition chain_node (s : kstep) (r : list kstep) : node :=
-    Node (step_kind s) (fin_basic (existsb step_vg (s :: r)) s r) (chain1 r).
+  (* ---------- the chain before and after setConnectedText ---------- *)
+  Definition pres (steps : list rstep) : list (kind * basic) := flat_map rstep_pre steps.
+  Lemma pres_plain steps : Forall (fun kb => plain_kind (fst kb)) (pres steps).
+  Proof. induction steps as [|x r IH]; [constructor|]. unfold pres. cbn [flat_map]. apply Forall_app. split; [apply rstep_pre_plain|exact IH]. Qed.
 
-  Lemma append_chain0 k b l s : (forall ids aw uq, k <> KMulti ids aw uq) ->
-    append_deep (Node k b (chain0 l)) (pre_node s) = Node k b (chain0 (l ++ [s])).
+  Lemma append_link k b l seg : plain_kind k -> Forall (fun kb => plain_kind (fst kb)) l -> seg <> [] ->
+    append_deep (Node k b (link l)) (match seg with x0 :: r => Node (fst x0) (snd x0) (link r) | [] => nil_node end) = Node k b (link (l ++ seg)).
   Proof.
-    revert k b. induction l as [|x l IH]; intros k b Hk.
-    - cbn [chain0 app]. destruct k; try reflexivity. contradiction (Hk ids allWild uq). reflexivity.
-    - cbn [chain0 app]. rewrite <- (IH (step_kind x) (pre_basic x)) by (apply step_kind_plain).
-      destruct k; try reflexivity. contradiction (Hk ids allWild uq). reflexivity.
+    intros Hk Hl Hseg. destruct seg as [|x0 sr]; [contradiction Hseg; reflexivity|]. clear Hseg.
+    revert k b Hk. induction Hl as [|y l Hy Hl IH]; intros k b [Hk1 Hk2].
+    - cbn [link app]. destruct k; try reflexivity. contradiction (Hk1 ids allWild uq). reflexivity.
+    - cbn [link app]. rewrite <- (IH (fst y) (snd y) Hy).
+      destruct k; try reflexivity. contradiction (Hk1 ids allWild uq). reflexivity.
   Qed.
 
-  Lemma chain_step_pre root s : chain_step (AOk root) (INode (pre_node s)) = AOk (append_deep root (pre_node s)).
-  Proof. destruct s; reflexivity. Qed.
+  Lemma rpre_not_agg root x : chain_step (AOk root) (INode (rpre_node x)) = AOk (append_deep root (rpre_node x)).
+  Proof. destruct x as [s|s]; destruct s as [q k|k|ds|[|]]; reflexivity. Qed.
 
   Lemma chain_fold rb steps : forall done,
-    fold_left chain_step (map (fun s => INode (pre_node s)) steps) (AOk (Node KRoot rb (chain0 done))) =
-    AOk (Node KRoot rb (chain0 (done ++ steps))).
+    fold_left chain_step (map (fun s => INode (rpre_node s)) steps) (AOk (Node KRoot rb (link (pres done)))) =
+    AOk (Node KRoot rb (link (pres (done ++ steps)))).
   Proof.
     induction steps as [|s r IH]; intros done; cbn [map fold_left]; [rewrite app_nil_r; reflexivity|].
-    rewrite chain_step_pre, append_chain0 by discriminate. rewrite IH, <- app_assoc. reflexivity.
+    rewrite rpre_not_agg. unfold rpre_node.
+    rewrite (append_link KRoot rb (pres done) (rstep_pre s)).
+    - replace (pres done ++ rstep_pre s) with (pres (done ++ [s])) by (unfold pres; rewrite flat_map_app; cbn [flat_map]; rewrite app_nil_r; reflexivity).
+      rewrite IH, <- app_assoc. reflexivity.
+    - split; intros; discriminate.
+    - apply pres_plain.
+    - destruct s; discriminate.
   Qed.
 
-  Lemma chain0_vg l : match chain0 l with ONone => false | OSome m => chain_vg m end = existsb step_vg l.
-  Proof. induction l as [|s r IH]; [reflexivity|]. cbn [chain0 chain_vg existsb]. rewrite IH. reflexivity. Qed.
+  Definition any_vg (l : list (kind * basic)) : bool := existsb (fun kb => vgroup (snd kb)) l.
+  Lemma link_vg l : match link l with ONone => false | OSome m => chain_vg m end = any_vg l.
+  Proof. induction l as [|x r IH]; [reflexivity|]. cbn [link chain_vg any_vg existsb]. rewrite IH. reflexivity. Qed.
 
-  Lemma set_ctext_last k b p : (forall ids aw uq, k <> KMulti ids aw uq) -> (forall f q, k <> KAgg f q) ->
-    set_ctext_deep (Node k b ONone) p = Node k (set_ctext (text b ++ p) b) ONone.
-  Proof. intros H1 H2. destruct k; try reflexivity; [contradiction (H1 ids allWild uq)|contradiction (H2 f param)]; reflexivity. Qed.
-  Lemma set_ctext_next k b m p : (forall ids aw uq, k <> KMulti ids aw uq) -> (forall f q, k <> KAgg f q) ->
+  Fixpoint ctx (l : list (kind * basic)) : string :=
+    match l with [] => ""%string | x :: r => (text (snd x) ++ ctx r)%string end.
+  Fixpoint fin (l : list (kind * basic)) : onode :=
+    match l with [] => ONone | x :: r => OSome (Node (fst x) (set_ctext (text (snd x) ++ ctx r) (snd x)) (fin r)) end.
+
+  Lemma set_ctext_last k b p : plain_kind k -> set_ctext_deep (Node k b ONone) p = Node k (set_ctext (text b ++ p) b) ONone.
+  Proof. intros [H1 H2]. destruct k; try reflexivity; [contradiction (H1 ids allWild uq)|contradiction (H2 f param)]; reflexivity. Qed.
+  Lemma set_ctext_next k b m p : plain_kind k ->
     set_ctext_deep (Node k b (OSome m)) p =
     Node k (set_ctext (text b ++ ctext (node_basic (set_ctext_deep m p))) b) (OSome (set_ctext_deep m p)).
-  Proof. intros H1 H2. destruct k; try reflexivity; [contradiction (H1 ids allWild uq)|contradiction (H2 f param)]; reflexivity. Qed.
+  Proof. intros [H1 H2]. destruct k; try reflexivity; [contradiction (H1 ids allWild uq)|contradiction (H2 f param)]; reflexivity. Qed.
 
-  Lemma set_ctext_chain vg s r :
-    set_ctext_deep (Node (step_kind s) (pre_basic_vg vg s) (chain0 r)) "" = Node (step_kind s) (fin_basic vg s r) (chain1 r).
+  Lemma set_ctext_link k b r : plain_kind k -> Forall (fun kb => plain_kind (fst kb)) r ->
+    set_ctext_deep (Node k b (link r)) "" = Node k (set_ctext (text b ++ ctx r) b) (fin r).
   Proof.
-    revert vg s. induction r as [|x r IH]; intros vg s; destruct (step_kind_plain s) as [P1 P2].
-    - cbn [chain0]. rewrite set_ctext_last by assumption. reflexivity.
-    - cbn [chain0]. rewrite set_ctext_next by assumption. unfold pre_basic. rewrite IH. reflexivity.
+    intros Hk Hr. revert k b Hk. induction Hr as [|y r Hy Hr IH]; intros k b Hk.
+    - cbn [link ctx fin]. apply set_ctext_last. exact Hk.
+    - cbn [link ctx fin]. rewrite set_ctext_next by exact Hk. rewrite (IH (fst y) (snd y) Hy). reflexivity.
   Qed.
 
-  Definition root_basic : basic := mk_basic "$" false (cfg_accessor cfg).
+  (* the tree of a path: the first node carries the value-group flag of the whole path *)
+  Definition chain_node (steps : list rstep) : node :=
+    match pres steps with
+    | x :: r => Node (fst x) (set_ctext (text (snd x) ++ ctx r) (set_vgroup (any_vg (x :: r)) (snd x))) (fin r)
+    | [] => nil_node
+    end.
 
-  Theorem parse_chain_path s r : forallb step_ok (s :: r) = true ->
-    parse_with cfg parse_float regex_ok G (chain_path (s :: r)) = ParseOk (chain_node s r).
+  Definition root_basic : basic := mk_basic "$" false (cfg_accessor cfg).
+  Lemma set_vgroup_same b : set_vgroup (vgroup b) b = b.
+  Proof. destruct b; reflexivity. Qed.
+
+  Theorem parse_chain_path s r : forallb rstep_ok (s :: r) = true ->
+    parse_with cfg parse_float regex_ok G (chain_path (s :: r)) = ParseOk (chain_node (s :: r)).
   Proof.
     intros Hs. unfold parse_with, parse_from. rewrite (peg_chain_path (s :: r) Hs). unfold chain_tokens.
     cbn [Actions.execute].
@@ -291,18 +435,22 @@ Section ChainExec.
     rewrite E. clear E. cbn [map app Actions.execute].
     change (exec_action 2 cps' b' ?st) with (abind (set_node_chain st) update_root_vg).
     unfold set_node_chain, mk. cbn [params].
-    pose proof (chain_fold root_basic (s :: r) []) as F. cbn [map app chain0] in F. rewrite F. clear F.
+    pose proof (chain_fold root_basic (s :: r) []) as F. cbn [map app] in F. change (link (pres [])) with ONone in F. rewrite F. clear F.
     cbn [abind with_params params saved proot]. unfold update_root_vg. cbn [params with_params saved proot abind].
-    assert (Ev : delete_root (update_vg (Node KRoot root_basic (chain0 (s :: r)))) =
-                 Node (step_kind s) (pre_basic_vg (existsb step_vg (s :: r)) s) (chain0 r)).
-    { unfold update_vg. cbn [chain_vg]. rewrite chain0_vg. cbn [root_basic mk_basic vgroup orb].
-      destruct (existsb step_vg (s :: r)) eqn:Ea.
-      - reflexivity.
-      - cbn [existsb] in Ea. apply orb_false_iff in Ea. destruct Ea as [Ea _]. cbn [chain0 delete_root vgroup]. unfold pre_basic. rewrite Ea. reflexivity. }
     unfold with_params. cbn [params saved proot].
     change (exec_action 0 cps' b' ?st) with
       (abind (pop_node st) (fun '(rt, st1) => AOk {| params := params st1; saved := saved st1; proot := Some (set_ctext_deep (delete_root rt) "") |})).
     unfold pop_node, pop. cbn [params rev app abind with_params saved proot].
-    cbn [chain0] in Ev. rewrite Ev. rewrite set_ctext_chain. reflexivity.
+    unfold chain_node. pose proof (pres_plain (s :: r)) as Hp.
+    destruct (pres (s :: r)) as [|x l] eqn:Ep.
+    { exfalso. unfold pres in Ep. cbn [flat_map] in Ep. destruct s as [s0|s0]; discriminate Ep. }
+    inversion Hp as [|? ? Hx Hl]; subst.
+    assert (Ev : delete_root (update_vg (Node KRoot root_basic (link (x :: l)))) = Node (fst x) (set_vgroup (any_vg (x :: l)) (snd x)) (link l)).
+    { unfold update_vg. cbn [chain_vg]. rewrite link_vg. cbn [root_basic mk_basic vgroup orb].
+      destruct (any_vg (x :: l)) eqn:Ea.
+      - reflexivity.
+      - cbn [link delete_root vgroup]. cbn [any_vg existsb] in Ea. apply orb_false_iff in Ea. destruct Ea as [Ea _].
+        rewrite <- Ea at 1. rewrite set_vgroup_same. reflexivity. }
+    rewrite Ev. rewrite (set_ctext_link _ _ l Hx Hl). reflexivity.
   Qed.
 End ChainExec.
